@@ -14,6 +14,8 @@ TRUSTED_BASE = [
     "computation of C20 covers it), goroutine scheduling",
 ]
 ASSUMPTIONS = [
+    "abandoned chunks (partial reliability) are outside the Sender.v theorem (sc_aband is carried but never set by its events); their "
+    "release through FORWARD-TSN + cumulative ack is covered by the white-box monitor on the PR simulations and scenarios",
     "theorem is stated for histories without stream deregistration (inbound reset removes a stream from the association map while "
     "its data may still be in flight; the release is then skipped) — exercised by the reset scenarios, not by this theorem",
 ]
@@ -31,6 +33,9 @@ def correspondence(ctx):
                       {"VERIF_N": ctx.scale(40, 1500), "VERIF_EVENTS": 250}, timeout=3000)
     vlib.differential(ctx, "streamw-differential", "TestVerifStreamW", "streamw", {"VERIF_N": ctx.scale(300, 6000)})
     simcommon.transfer(ctx)
+    # partially reliable traffic: abandoned chunks are released through FORWARD-TSN + cumulative ack
+    simcommon.sim_monitor(ctx, "pr-sims-buffered", "TestVerifSimPR", {"VERIF_N": ctx.scale(40, 600)}, "SIMPR")
+    simcommon.sim_monitor(ctx, "pr-scenarios-buffered", "TestVerifScenPR", {}, "SCENPR")
     simcommon.sim_monitor(ctx, "buffered-low-callback", "TestVerifScenBufferedLow", {"VERIF_N": ctx.scale(20, 300)}, "SCENBUFLOW")
 
 
